@@ -166,7 +166,7 @@ func reregOne(c *vf.Ctx, seed int64, batch, iter int, race bool) {
 					// channel / sync primitive, or sleeping): whatever it waits on, it has not made its way out
 					// of Run yet. A goroutine that merely has not left Run's epilogue is not blocked.
 					if g, ok := gdump.Find(gdump.Snapshot(), id); ok && g.Has("daemon.(*OrderedDaemon).Run") &&
-						(g.Parked() || g.State == "sleep" || g.Has("sync.(*Cond).Wait") || g.Has("sync.(*WaitGroup).Wait")) {
+						(g.Parked() || g.State == "sleep") {
 						nw.runWaiting = true
 						runSeenWaiting.Add(1)
 					}
